@@ -8,6 +8,7 @@ and replayed to reach the next unexplored path.  At each new decision the solver
 asked which sides are feasible; at each obligation it is asked for a counterexample
 (path condition AND NOT obligation).
 """
+import os
 import time
 import z3
 
@@ -46,6 +47,25 @@ class Violation(EngineSignal):
         self.label = label
         self.model_values = model_values
         self.detail = detail
+
+
+_DUMP = {"dir": os.environ.get("SYMX_DUMP_SMT"), "n": 0, "limit": int(os.environ.get("SYMX_DUMP_LIMIT", "60")), "every": int(os.environ.get("SYMX_DUMP_EVERY", "7"))}
+
+
+def _dump_query(solver, negated):
+    """development aid (tools/solver_diff.py): write discharged obligations (path condition + negated obligation, expected unsat)
+    as SMT-LIB2 so that other solvers can be asked the same question"""
+    if not _DUMP["dir"]:
+        return
+    _DUMP["n"] += 1
+    if _DUMP["n"] % _DUMP["every"] or _DUMP["n"] // _DUMP["every"] > _DUMP["limit"]:
+        return
+    solver.push()
+    solver.add(negated)
+    text = solver.to_smt2()
+    solver.pop()
+    with open(os.path.join(_DUMP["dir"], "q%d_%06d.smt2" % (os.getpid(), _DUMP["n"])), "w") as f:
+        f.write("; expected: unsat\n" + text)
 
 
 B, P, A = "b", "p", "a"   # decision kinds: branch, pick (concretise), assume
@@ -224,6 +244,7 @@ class Engine:
         m = self._check(z3.Not(cond))
         if m is not None:
             raise Violation(label, self.extract(m))
+        _dump_query(self.solver, z3.Not(cond))
 
     def feasible(self, cond):
         """is PC and cond satisfiable? (no fork, no constraint added)"""
